@@ -33,6 +33,10 @@ its position: "theta<i>" = position i-1), `independentParameters_`, alias listen
 `setConstraint` / `removeConstraint`, and access to the `Parameter` objects behind the object's back
 (`getParameter()` hands out the shared_ptr; the non-const `getFrequencies()` hands out `vProb_`).
 
+Vector arguments: `Simplex::setFrequencies` reads the first `dim_` entries of its argument (and sums all
+of them): longer vectors are defined and modelled (`take dim`), shorter ones are read out of bounds
+(`Err.ub`, never executed).  `OrderedSimplex::setFrequencies` raises on any other size (third repair).
+
 In-place writes `vProb_[i]`, `valpha_[i]`, `vValues_[i-1]` for all i below the dimension are modelled
 as replacing the vector: the vectors have exactly that size (invariants `OK.probsLen`, `OK.cache`,
 `OK.values` of BppProofs/Lemmas/SimplexObj.lean, established by the constructors' push_backs and
@@ -231,11 +235,26 @@ def oConstructDim (dim method : Nat) (allowNull : Bool) : Except Err (Obj α) :=
   let b ← constructDim (α := α) dim method allowNull
   .ok { b with vValues := some (orderedValues b.vProb 1) }
 
-/-- `OrderedSimplex::setFrequencies` :296-314 (after the round-1 repairs: empty vector returns at
-once; `vValues_` is assigned once the base class has accepted the vector) -/
+/-- `OrderedSimplex::setFrequencies` :296-318 (after the repairs: empty vector returns at once;
+a vector of another size than the dimension raises `DimensionException` — a `bpp::Exception`, shown
+`exc:bpp` like the sum test, hence `Err.sum`; `vValues_` is assigned once the base class has accepted
+the vector) -/
 def Obj.oSetFrequencies (o : Obj α) (v : List α) : Obj α × Option Err :=
   if v.length = 0 then (o, none)
-  else if v.length ≠ o.dim then (o, some .ub)
+  else if v.length ≠ o.dim then (o, some .sum)
+  else
+    match o.setFrequenciesBase (orderedToProbs v 1) with
+    | (o', none) => ({ o' with vValues := some v }, none)
+    | (o', some e) => (o', some e)
+
+/-- `OrderedSimplex::setFrequencies` as it was before the third repair (no test of the size; kept for
+the witness theorem `C19.ordered_setFrequencies_unchecked_long_vector`).  The function works with
+the size of its ARGUMENT: `vprob` has `v.size()` entries, the base class sums all of them and reads
+the first `dim_` (`Simplex::setFrequencies` :214, :224-264), so a LONGER vector is defined behaviour:
+accepted if its transform sums to one, and `vValues_ = vValues` then installs a vector that is longer
+than the dimension.  A SHORTER one makes the base class read `probas[i]` out of bounds. -/
+def Obj.oSetFrequenciesUnchecked (o : Obj α) (v : List α) : Obj α × Option Err :=
+  if v.length = 0 then (o, none)
   else
     match o.setFrequenciesBase (orderedToProbs v 1) with
     | (o', none) => ({ o' with vValues := some v }, none)
